@@ -16,3 +16,8 @@ func VHStackStep() {
 	containers.VLinStep(containers.VLin{C: s, Push: s.Push, Pop: s.Pop, Peek: s.Peek, LIFO: true,
 		Inv: func() { v.Assert(s.list != nil, "inv-list"); singlylinkedlist.VInv(s.list) }}, pre)
 }
+
+func VHIter() {
+	s, pre := VGStack()
+	containers.VIterStep(func() containers.IteratorWithIndex[int] { return s.Iterator() }, pre, s)
+}
